@@ -95,7 +95,7 @@ func DecodePostgres(data []byte) (PostgresRow, error) {
 
 	// pid
 	pos = bytes.IndexByte(data, pidInfoCloseBrace)
-	if pos < 0 {
+	if pos < 1 {
 		return row, fmt.Errorf("pid is not found")
 	}
 
